@@ -61,6 +61,7 @@ template <class T> static void run_factor_exits(Choice &c, Ctx &cx)
         cf.misalign = pick_misalign(c.chance(128), cx);
     } else if (exitk == 2) fault = 1 + (long)c.below(8);
     static const unsigned char fills[3] = {0x00, 0xFF, 0x5A};
+    if (!cx.is_known("F04")) vf_nofork_flag() = true;     // finding F04 (workspace crashes / hangs) is fixed: no isolation needed
     FactorOutcome o[3];
     for (int r = 0; r < 3; ++r) {
         StorageCfg cr = cf; cr.workfill = (unsigned char)~fills[r];
